@@ -198,10 +198,20 @@ func runProperty(w *vc.World, prop, tier, repo string) *checkOutcome {
 		obls = append(obls, v.Obls...)
 		out.genErrors = append(out.genErrors, v.Errors...)
 	}
-	cfg := vc.SolverCfg{TimeoutSec: 10}
+	cfg := vc.SolverCfg{TimeoutSec: 10, StopAfter: 12}
 	if tier == "thorough" {
 		cfg.TimeoutSec = 60
 		cfg.CrossCheck = true
+		cfg.StopAfter = 0
+	}
+	{
+		known := map[string]finding{}
+		for _, f := range loadFindings().Findings {
+			if f.Status == "known" && f.Property == prop {
+				known[f.Obligation] = f
+			}
+		}
+		cfg.Known = func(name string) bool { _, ok := knownName(known, name); return ok }
 	}
 	out.results = vc.Solve(obls, cfg)
 	return out
@@ -222,7 +232,7 @@ func report(w *vc.World, out *checkOutcome, seed int, writeEvidence, writeExpect
 		replayDir = filepath.Join(replayBase, prop)
 	}
 
-	proved, total := 0, 0
+	proved, total, skipped := 0, 0, 0
 	bySolver := map[string]int{}
 	byKind := map[string]int{}
 	var solverSecs float64
@@ -239,6 +249,10 @@ func report(w *vc.World, out *checkOutcome, seed int, writeEvidence, writeExpect
 				knownHit[kn] = true
 				continue
 			}
+		}
+		if r.Status == vc.Skipped {
+			skipped++
+			continue
 		}
 		total++
 		byKind[r.O.Kind]++
@@ -378,6 +392,7 @@ func report(w *vc.World, out *checkOutcome, seed int, writeEvidence, writeExpect
 				"discharged_by_solver":     bySolver,
 				"solver_seconds":           round3(solverSecs),
 				"known_findings_hit":       out.known,
+				"not_attempted":            skipped, // quick tier only: obligations left out after the first 12 that could not be discharged (always 0 when the check passes)
 				"samples":                  samples,
 				"explanation":              propScope[prop],
 				"contract_files":           w.ContractFiles,
